@@ -8,7 +8,7 @@ with the same comparator shape.
 Does not decide: chunking, duplicate handling, empty-side behaviour (value level)."""
 import re
 
-from tmpl import site, suffix
+from tmpl import site, suffix, lost_witnesses
 
 JOINS = {
     'NestedLoopJoin': 'executor::nested_loop_join::NestedLoopJoinExecutor::execute',
@@ -154,3 +154,38 @@ def run(ctx):
                    what='group_by_keys has no flush after the end of its input: key groups are closed at chunk boundaries, so a key that '
                         'straddles two chunks is joined as two groups (merge join loses matches)')
 
+    R5 = 'C11-R5'
+    ctx.rule(R5, 'existence flags of semi/anti joins (and every other executor) are monotone: a bool initialised to false before a '
+                 'loop and assigned inside it is either accumulated (`e |= x`) or the loop is left whenever it is true; an assignment '
+                 'that can run again while the flag may be true forgets a match seen in an earlier chunk (the nested-loop anti join '
+                 'would then disagree with the hash anti join as soon as the right side has several chunks)')
+    n_flags = 0
+    for b in prog.bodies.values():
+        if not re.match(r'^<?executor::', b.name) or b.rec.get('derived'):
+            continue
+        for l, inits, a, lost in lost_witnesses(b):
+            n_flags += 1
+            ctx.functions_analysed.add(b.name)
+            ctx.ob(R5, f'{b.root}·{b.var_name(l) or l}·monotone', not lost,
+                   f'{b.name}: `{b.var_name(l) or l}` initialised false at {inits}, assigned at block {a}'
+                   + ('; the assignment can be reached again while the flag may be true' if lost else ''), [site(b, a)],
+                   what=f'{b.root}: the flag `{b.var_name(l) or l}` is overwritten by a later round of the loop although it may already '
+                        'be true: a match found in an earlier chunk is forgotten')
+    # accumulating flags (e |= x) never show up above; count them so that the rule is seen to look at something
+    n_acc = 0
+    for b in prog.bodies.values():
+        if not re.match(r'^<?executor::', b.name):
+            continue
+        for bb, st in b.stmts():
+            rv = st.get('rv', {}) if st['s'] == 'assign' else {}
+            if rv.get('rv') == 'binop' and rv['op'].startswith('BitOr') and rv.get('ty') == 'bool' and not st['lhs']['p']:
+                n_acc += 1
+    ctx.floor(R5, n_acc, 1, 'bool accumulators (e |= x) in executor::')
+    try:
+        import mir
+        fx = mir.load_fixture()
+        got = {b.root for b in fx.bodies.values() for l, i_, a, lost in lost_witnesses(b) if lost}
+        ctx.ob(R5, 'self-test·fixture', got == {'executor::exists_overwritten'},
+               f'positive examples flagged: {sorted(got)}; expected exactly executor::exists_overwritten')
+    except SystemExit as e:
+        ctx.ob(R5, 'self-test·fixture', False, f'fixture crate could not be analysed: {e}')
